@@ -1083,6 +1083,48 @@ theorem tunnel_requests_forwarded_verbatim (L : Lib) (v : Validator) (modes : Na
   have ha := tunnel_implies_memo L v modes pre (State.init modes) hinit cid (Or.inl hp)
   exact authenticated_connection_passes L v (modes cid) _ cid hs true hp ha
 
+/-! ### a validator that raises -/
+
+/-- the hooks accept a pair exactly when the validator *returns* True -/
+theorem accepts_iff_check_ok (L : Lib) (v : Validator) (u p : Text) :
+    v.accepts L u p = true ↔ v.check L u p = .ok true := by
+  unfold Validator.accepts
+  cases h : v.check L u p with
+  | error e => simp
+  | ok b => cases b <;> simp
+
+/-- **fail closed under a raising validator** (bcrypt.checkpw on a password longer than 72 bytes, an LDAP error, any
+    validator object whose `__call__` raises): the pair is not accepted — a plain request and a CONNECT get 407 / 401
+    and nothing changes; the trace theorems above (`unauthenticated_never_forwarded`, …) therefore cover such
+    validators, since `presentsAccepted` is stated with `accepts`. -/
+theorem raising_validator_fails_closed (L : Lib) (v : Validator) (m : Mode) (σ : State) (cid : Nat)
+    (hs : List Hdr) (t : Bool) (u p : Text)
+    (hparse : parseBasic L (hdrGet hs (authName m)) = some (u, p)) (hraise : v.check L u p = .error ())
+    (hp : σ.phase cid = .http t) (hna : cid ∉ σ.authd) :
+    step L (some v) m σ cid (.req false false hs) = (σ, .deny (if m.isHttpProxy then 407 else 401)) ∧
+    (m.isHttpProxy = true → t = false → ∀ big, step L (some v) m σ cid (.req true big hs) = (σ, .deny 407)) := by
+  have hc : credsOk L v m hs = false := by
+    unfold credsOk; rw [hparse]; simp [Validator.accepts, hraise]
+  constructor
+  · rw [decision_for_every_header_list L v m σ cid hs t hp hna]; simp [hc]
+  · intro hm ht big
+    subst ht
+    rw [connect_decision L v m σ cid hs big hp hm]; simp [hc]
+
+/-- … and on SOCKS5: `01 01` + close -/
+theorem raising_validator_fails_closed_socks (L : Lib) (v : Validator) (m : Mode) (σ : State) (cid : Nat)
+    (ub pb : Bytes) (hraise : v.check L (L.sockDecode ub) (L.sockDecode pb) = .error ())
+    (hp : σ.phase cid = .sAuth) :
+    step L (some v) m σ cid (.sAuth ub pb) = (σ.setPhase cid .closed, .sAuthFail) := by
+  have hc : v.accepts L (L.sockDecode ub) (L.sockDecode pb) = false := by simp [Validator.accepts, hraise]
+  unfold step; simp [hp, socks5AuthHook, hc]
+
+-- a validator that raises on (u, pa:ss) and accepts everything else: the raising pair is refused, another one passes
+example : (step L0 (some (.raising [([117], [112, 97, 58, 115, 115])] .any)) .regular (State.init modes0) 0
+    (.req false false [⟨pa, cred0⟩])).2 = .deny 407 := by decide +kernel
+example : (Validator.raising [([117], [112])] .any).check L0 [117] [112] = .error () ∧
+    (Validator.raising [([117], [112])] .any).check L0 [117] [113] = .ok true := by decide +kernel
+
 -- non-vacuity: the tunnel phase is reachable (hist0 above), and the decision takes both branches
 example : (finalState L0 (some single0) modes0 (State.init modes0) hist0).phase 0 = .http true := by decide +kernel
 example : credsOk L0 single0 .regular [⟨pa, cred0⟩] = true ∧ credsOk L0 single0 .reverse [⟨pa, cred0⟩] = false := by
